@@ -433,6 +433,17 @@ func (r *Runner) ExecTx(s Step) *TxOutcome {
 		o.Amount = a
 	}
 	switch s.K {
+	case "create_val":
+		// a new validator joins (real MsgCreateValidator by a fresh operator account funded by the world)
+		st := o.Amount.Int64()
+		if st <= 0 {
+			st = 1_000_000
+		}
+		if len(w.Vals) >= 9 {
+			o.Res = TxResult{Err: "world: validator limit reached"}
+		} else {
+			o.Res = w.CreateValidator(len(w.Vals)-1, st)
+		}
 	case "donate":
 		c, err := sdk.ParseCoinsNormalized(s.Amt)
 		if err != nil {
